@@ -1,3 +1,8 @@
 import Ypv.Props.C15
-#print axioms Ypv.C15.required_errors_are_ypath
-#print axioms Ypv.C15.queries_errors_are_ypath
+#print axioms Ypv.C15.required_errors_are_ypath_partial
+#print axioms Ypv.C15.queries_errors_are_ypath_partial
+#print axioms Ypv.C15.compare_matcher_safe
+#print axioms Ypv.C15.compare_matcher_safe_noOracle
+#print axioms Ypv.C15.keyword_crash_only_K1
+#print axioms Ypv.C15.keyword_no_crash_outside_K1
+#print axioms Ypv.C15.queries_errors_are_ypath_compare
